@@ -68,6 +68,31 @@ Theorem tempfiles_removed_refuted :
 Proof. exact tempfiles_removed_refuted_proof. Qed.
 Print Assumptions tempfiles_removed_refuted.
 
+(* The --tmux popup proxy (src/proxy.go, runProxy): for EVERY environment -- standard input a terminal or not, either
+   mkfifo failing, the command builder failing, ANY exit status of the popup command (accept 0, no match 1, error 2,
+   become 126, popup closed 129, abort 130, ...), cmd.Run failing without an exit status, the become file readable or
+   not, /dev/tty available or not -- none of the hand-over files (output fifo, input fifo, script, <script>.become) is
+   left when the outer process returns OR replaces itself with the become command.  The deferred removals are modelled
+   as a stack that `return` runs and `exec` discards.  The one hypothesis: the inner fzf leaves a become file only when
+   it exits with status 126 (penv_consistent); it is needed (second theorem).  NOT covered: the outer process being
+   killed by a signal it does not handle (SIGTERM, SIGHUP: known findings c14-tmux-sigterm, c14-sighup). *)
+Theorem proxy_files_removed : forall e, penv_consistent e -> pr_left (run_proxy e) = [].
+Proof. exact proxy_files_removed_proof. Qed.
+Print Assumptions proxy_files_removed.
+
+Theorem proxy_files_removed_needs_consistency :
+  exists e, pe_child e <> 126 /\ pr_left (run_proxy e) = [PFBecome].
+Proof. exact proxy_files_removed_needs_consistency_proof. Qed.
+Print Assumptions proxy_files_removed_needs_consistency.
+
+(* while the popup is open exactly these exist: output fifo, input fifo iff standard input is not a terminal, script
+   (this is what the check compares with the listing of the real TMPDIR) *)
+Theorem proxy_live_files : forall e, pe_out_ok e = true -> pe_builder_ok e = true ->
+  (pe_stdin_tty e = true \/ pe_in_ok e = true) ->
+  pr_live (run_proxy e) = if pe_stdin_tty e then [PFOut; PFScript] else [PFOut; PFIn; PFScript].
+Proof. exact proxy_live_files_proof. Qed.
+Print Assumptions proxy_live_files.
+
 (* ---- non-vacuity *)
 (* a real frame (cursor motion, colours, text, an OSC 8 hyperlink) is accepted by lop_ok; a --height --no-clear session
    with mouse that draws, hides the cursor, runs `execute`, comes back from ctrl-z and closes while the cursor is
@@ -93,3 +118,11 @@ Example c14_nonvacuous_tempfiles :
              TReloadAct true 2; TActionsEnd; TCoordTake; TReadFin; TExit] in
   orderly t0 es /\ owned (t_run t0 es) = [] /\ t_next (t_run t0 es) = 9%nat.
 Proof. vm_compute. tauto. Qed.
+
+(* a become from the popup with a piped list: consistent, three files while the popup is open, the become file is
+   there when the popup has closed, the process is replaced, and nothing is left *)
+Example c14_nonvacuous_proxy :
+  let e := mkPenv false true true true 126 true true true in
+  penv_consistent e /\ pr_live (run_proxy e) = [PFOut; PFIn; PFScript] /\ pr_exec (run_proxy e) = true /\
+  pr_left (run_proxy e) = [] /\ pr_code (run_proxy (mkPenv true true true true 130 true false true)) = 130.
+Proof. vm_compute. repeat split; reflexivity. Qed.
